@@ -6,7 +6,7 @@ import proto
 from impl import trees, quiet, mk_leaf, mk_node
 
 ID = "C20"
-MODULE = ['TT.Props.C20', 'TT.Props.C20More', 'TT.Props.C20More2']
+MODULE = ['TT.Props.C20', 'TT.Props.C20More', 'TT.Props.C20More2', 'TT.Props.C20More3']
 ALPHABET = ["A", "b", "1", "0", "-", "=", "#", "'", "*"]
 RULE = ("exhaustive strings over %r up to length 4 (quick) / 6 (thorough) x separators {-,#}; random longer "
         "labels x option subsets; get_label on random nodes x decoration option subsets. A case is non-trivial "
